@@ -322,3 +322,93 @@ func init() {
 		}
 	}
 }
+
+// bigValues: values whose encoding is longer than 65535 octets, so that every
+// decoder's 16-bit length arithmetic is crossed (DESIGN.md 3.5).
+func bigValues(g *gen.G, all bool) []abs.V {
+	unk := func(n int) abs.V {
+		return abs.V{"k": "XR", "sender": g.U32(), "blocks": abs.L{abs.V{"bt": "unk", "type": 200, "ts": 165, "bytes": g.Bytes(n)}, abs.V{"bt": "rrt", "ntp": g.U64()}}}
+	}
+	fir := func(n int) abs.V {
+		es := make(abs.L, n)
+		for i := range es {
+			es[i] = abs.V{"ssrc": abs.U32(uint32(i) * 2654435761), "seq": i % 256}
+		}
+		return abs.V{"k": "FIR", "sender": g.U32(), "media": g.U32(), "fir": es}
+	}
+	sr := g.SR()
+	sr["ext"] = g.Bytes(65536 + 8)
+	vs := []abs.V{unk(65532), sr, fir(8200)}
+	if !all {
+		return vs
+	}
+	rr := g.RR()
+	rr["ext"] = g.Bytes(65533)
+	app := g.APP()
+	app["data"] = g.Bytes(65523)
+	cs := make(abs.L, 31)
+	for i := range cs {
+		items := make(abs.L, 9)
+		for j := range items {
+			items[j] = abs.V{"t": 1 + j%8, "text": g.Bytes(255)}
+		}
+		cs[i] = abs.V{"src": g.U32(), "items": items}
+	}
+	sdes := abs.V{"k": "SDES", "chunks": cs}
+	ccb := make(abs.L, 3)
+	for i := range ccb {
+		ms := make(abs.L, 16384)
+		for j := range ms {
+			ms[j] = abs.V{"r": true, "ecn": j % 4, "ato": j % 8192}
+		}
+		ccb[i] = abs.V{"media": g.U32(), "begin": 100 * i, "mbs": ms}
+	}
+	ccfb := abs.V{"k": "CCFB", "sender": g.U32(), "blocks": ccb, "ts": g.U32()}
+	st := make([]int, 30000)
+	for i := range st {
+		st[i] = 2
+	}
+	twcc := g.TWCCFrom(st, 2)
+	rle := make(abs.L, 32762)
+	for i := range rle {
+		rle[i] = (i*7 + 1) % 65536
+	}
+	xrrle := abs.V{"k": "XR", "sender": g.U32(), "blocks": abs.L{abs.V{"bt": "lrle", "t": 3, "ssrc": g.U32(), "bs": 1, "es": 2, "chunks": rle}, abs.V{"bt": "rrt", "ntp": g.U64()}}}
+	dl := make(abs.L, 5462)
+	for i := range dl {
+		dl[i] = abs.V{"ssrc": abs.U32(uint32(i)), "lrr": g.U32(), "dlrr": g.U32()}
+	}
+	xrdlrr := abs.V{"k": "XR", "sender": g.U32(), "blocks": abs.L{abs.V{"bt": "dlrr", "reports": dl}, abs.V{"bt": "rrt", "ntp": g.U64()}}}
+	raw := abs.V{"k": "RAW", "bytes": append(abs.L{128 + 7, 199, 65536 / 4 / 256, 65536 / 4 % 256}, g.Bytes(65536)...)}
+	return append(vs, rr, app, sdes, ccfb, twcc, xrrle, xrdlrr, unk(65536), raw)
+}
+
+func init() {
+	// n = 0: three kinds; n > 0: every kind that can exceed 65535 octets
+	drivers["bigframes"] = func(s *exec.State, g *gen.G, n int) {
+		for _, v := range bigValues(g, n > 0) {
+			scriptRT(s, v)
+			// a big frame followed by a small one (C06)
+			b := encodeWith(v)
+			if b != nil {
+				scriptFrames(s, [][]byte{b, encodeWith(g.PLI())})
+			}
+		}
+	}
+	// big frames through every decoder (C01): the encodings, and the same with the
+	// length field changed to wrap the 16-bit octet count
+	drivers["bigdec"] = func(s *exec.State, g *gen.G, n int) {
+		for _, v := range bigValues(g, n > 0) {
+			b := encodeWith(v)
+			if b == nil {
+				continue
+			}
+			scriptDec(s, b)
+			for _, l := range []int{16383, 16384, 16385, 32768, 65535} {
+				c := append([]byte(nil), b...)
+				c[2], c[3] = byte(l>>8), byte(l)
+				scriptDec(s, c)
+			}
+		}
+	}
+}
